@@ -240,6 +240,161 @@ theorem foldW_le (k j B : Nat) (f : σ → ι → W σ) (hf : ∀ s x, (f s x).2
       · simp only [hjk, if_true] at this h1 ⊢; omega
       · simp only [hjk, if_false] at this ⊢; omega
 
+/-- per-element bound: counter `j` of a counting fold is at most (its own ticks) + Σ over the elements of what the body may tick -/
+theorem foldW_le_sum (k j : Nat) (g : ι → Nat) (f : σ → ι → W σ) (hf : ∀ s x, (f s x).2 j ≤ g x) :
+    ∀ (xs : List ι) (s : σ), (foldW? k f s xs).2 j ≤ (if j = k then xs.length else 0) + (xs.map g).sum := by
+  intro xs
+  induction xs with
+  | nil => intro s; simp [foldW_nil]
+  | cons x xs ih =>
+    intro s
+    rw [foldW_cons, bind_snd]
+    show _ + (W.bind (f s x) _).2 j ≤ _
+    rw [bind_snd]
+    have h1 := hf s x
+    have ht : (W.tick k).2 j = if j = k then 1 else 0 := rfl
+    rw [ht]
+    simp only [List.length_cons, List.map_cons, List.sum_cons]
+    cases (f s x).1 with
+    | none =>
+      simp only
+      by_cases hjk : j = k
+      · simp only [hjk, if_true] at h1 ⊢; omega
+      · simp only [hjk, if_false]; omega
+    | some r =>
+      simp only
+      have := ih r
+      by_cases hjk : j = k
+      · simp only [hjk, if_true] at this h1 ⊢; omega
+      · simp only [hjk, if_false] at this ⊢; omega
+
+/-- a measure that grows by at most one per element grows by at most the length over a `List.foldlM` that returns -/
+theorem foldlM_measure (μ : σ → Nat) (f : σ → ι → Option σ) (hf : ∀ s x s', f s x = some s' → μ s' ≤ μ s + 1) :
+    ∀ (xs : List ι) (s s' : σ), List.foldlM (m := Option) f s xs = some s' → μ s' ≤ μ s + xs.length := by
+  intro xs
+  induction xs with
+  | nil => intro s s' h; simp only [List.foldlM_nil] at h; cases h; exact Nat.le_refl _
+  | cons x xs ih =>
+    intro s s' h
+    rw [List.foldlM_cons] at h
+    cases hx : f s x with
+    | none => rw [hx] at h; cases h
+    | some r =>
+      rw [hx] at h
+      have := ih r s' h
+      have := hf s x r hx
+      simp only [List.length_cons]; omega
+
+/-! ### `whileW?` -/
+
+theorem whileW_zero (k : Nat) (cond : σ → Bool) (body : σ → W σ) (s : σ) : whileW? k cond body 0 s = W.raise := rfl
+theorem whileW_succ (k : Nat) (cond : σ → Bool) (body : σ → W σ) (fuel : Nat) (s : σ) :
+    whileW? k cond body (fuel + 1) s =
+      if cond s then W.bind (W.tick k) fun _ => W.bind (body s) (whileW? k cond body fuel) else W.ret s := rfl
+
+/-- the value of a counting `while` is the plain `Py.while?` on the values of its body. -/
+theorem whileW_fst (k : Nat) (cond : σ → Bool) (body : σ → W σ) :
+    ∀ (fuel : Nat) (s : σ), (whileW? k cond body fuel s).1 = Py.while? cond (fun s => (body s).1) fuel s := by
+  intro fuel
+  induction fuel with
+  | zero => intro s; rfl
+  | succ fuel ih =>
+    intro s
+    rw [whileW_succ, Py.while?]
+    split
+    · rw [bind_fst]
+      show (W.bind (body s) _).1 = _
+      rw [bind_fst]
+      cases (body s).1 with
+      | none => rfl
+      | some r => simp only [Option.bind_some, ih]
+    · rfl
+
+/-- POTENTIAL rule for a `while` that RETURNS: if every iteration satisfies `ticks_j(body) + φ(before) ≤ φ(after) + c` then counter `j` (not the
+loop's own) over the whole run, plus `φ(start)`, is at most `φ(end) + c·(iteration budget)`; the loop's own counter is at most the budget; the end
+state fails the loop condition. -/
+theorem whileW_potential (k j c : Nat) (hj : j ≠ k) (cond : σ → Bool) (body : σ → W σ) (φ : σ → Nat)
+    (hb : ∀ s s', cond s = true → (body s).1 = some s' → (body s).2 j + φ s ≤ φ s' + c) (hbk : ∀ s, (body s).2 k = 0) :
+    ∀ (fuel : Nat) (s e : σ), (whileW? k cond body fuel s).1 = some e →
+      (whileW? k cond body fuel s).2 j + φ s ≤ φ e + c * fuel ∧ (whileW? k cond body fuel s).2 k ≤ fuel ∧ cond e = false := by
+  intro fuel
+  induction fuel with
+  | zero => intro s e h; cases h
+  | succ fuel ih =>
+    intro s e h
+    rw [whileW_succ] at h ⊢
+    by_cases hc : cond s = true
+    · simp only [hc, if_true] at h ⊢
+      rw [bind_fst] at h
+      have h' : (W.bind (body s) (whileW? k cond body fuel)).1 = some e := h
+      rw [bind_fst] at h'
+      have t1 : (W.tick k).2 j = 0 := by show (if j = k then 1 else 0) = 0; rw [if_neg hj]
+      have t2 : (W.tick k).2 k = 1 := by show (if k = k then 1 else 0) = 1; rw [if_pos rfl]
+      have tf : (W.tick k).1 = some () := rfl
+      cases hbs : (body s).1 with
+      | none => rw [hbs] at h'; cases h'
+      | some r =>
+        rw [hbs] at h'
+        simp only [Option.bind_some] at h'
+        obtain ⟨i1, i2, i3⟩ := ih r e h'
+        have := hb s r hc hbs
+        have hk0 := hbk s
+        simp only [bind_snd, tf, hbs, t1, t2, Nat.mul_succ, hk0, Nat.zero_add]
+        generalize (whileW? k cond body fuel r).2 j = wj at *
+        generalize (whileW? k cond body fuel r).2 k = wk at *
+        generalize (body s).2 j = bj at *
+        have g1 : bj + wj + φ s ≤ φ e + (c * fuel + c) := by omega
+        exact ⟨g1, by omega, i3⟩
+    · simp only [hc, Bool.false_eq_true, if_false] at h ⊢
+      simp only [ret_fst, Option.some.injEq] at h
+      subst h
+      simp only [ret_snd]
+      exact ⟨by omega, by omega, by simpa using hc⟩
+
+/-- a `while` ticks no counter but its own and those its body ticks -/
+theorem whileW_other (k j : Nat) (hj : j ≠ k) (cond : σ → Bool) (body : σ → W σ) (hb : ∀ s, (body s).2 j = 0) :
+    ∀ (fuel : Nat) (s : σ), (whileW? k cond body fuel s).2 j = 0 := by
+  intro fuel
+  induction fuel with
+  | zero => intro s; rfl
+  | succ fuel ih =>
+    intro s
+    rw [whileW_succ]
+    split
+    · have t1 : (W.tick k).2 j = 0 := by show (if j = k then 1 else 0) = 0; rw [if_neg hj]
+      have tf : (W.tick k).1 = some () := rfl
+      simp only [bind_snd, tf, t1, hb, Nat.zero_add]
+      cases (body s).1 with
+      | none => rfl
+      | some r => exact ih r
+    · rfl
+
+/-- a measure that grows by at most one per iteration grows by at most the budget over a `while` that returns -/
+theorem whileW_measure (k : Nat) (cond : σ → Bool) (body : σ → W σ) (μ : σ → Nat)
+    (hb : ∀ s s', cond s = true → (body s).1 = some s' → μ s' ≤ μ s + 1) :
+    ∀ (fuel : Nat) (s e : σ), (whileW? k cond body fuel s).1 = some e → μ e ≤ μ s + fuel := by
+  intro fuel
+  induction fuel with
+  | zero => intro s e h; cases h
+  | succ fuel ih =>
+    intro s e h
+    rw [whileW_succ] at h
+    by_cases hc : cond s = true
+    · simp only [hc, if_true] at h
+      rw [bind_fst] at h
+      have h' : (W.bind (body s) (whileW? k cond body fuel)).1 = some e := h
+      rw [bind_fst] at h'
+      cases hbs : (body s).1 with
+      | none => rw [hbs] at h'; cases h'
+      | some r =>
+        rw [hbs] at h'
+        simp only [Option.bind_some] at h'
+        have := ih r e h'
+        have := hb s r hc hbs
+        omega
+    · simp only [hc, Bool.false_eq_true, if_false, ret_fst, Option.some.injEq] at h
+      subst h; omega
+
 /-! ### upper bounds on ticks, compositionally -/
 
 theorem le_ret (a : α) (j B : Nat) : (W.ret a).2 j ≤ B := Nat.zero_le _
